@@ -459,3 +459,771 @@ Section Recog.
       pose proof (recog_set_sound b Hs Es) as H. destruct (recog_set utf8_ok b); auto. contradiction.
   Qed.
 End Recog.
+
+(* ------------------------------------------------------------------ streams *)
+Lemma decode_stream_done b v n : parse true b = Done v n ->
+  decode_stream true b = (v :: fst (decode_stream true (skipn n b)), snd (decode_stream true (skipn n b))).
+Proof.
+  intros H. unfold decode_stream. cbn [decode_all]. rewrite H.
+  apply parse_consumed_exact in H. destruct H as [H _].
+  rewrite (decode_all_fuel true (length b) (S (length (skipn n b))) (skipn n b));
+    [reflexivity| |]; rewrite skipn_length; lia.
+Qed.
+
+Lemma decode_stream_incomplete b : parse true b = Incomplete -> decode_stream true b = ([], TMore b).
+Proof. intros H. unfold decode_stream. cbn [decode_all]. now rewrite H. Qed.
+
+Lemma decode_stream_err b k : parse true b = Err k -> decode_stream true b = ([], TErr k).
+Proof. intros H. unfold decode_stream. cbn [decode_all]. now rewrite H. Qed.
+
+Lemma decode_all_tail_ok : forall f b, size_ok b ->
+  length b < f ->
+  match snd (decode_all true f b) with
+  | TMore rest => parse true rest = Incomplete /\ length rest <= length b
+  | TErr _ => True
+  | _ => False
+  end.
+Proof.
+  induction f as [|f IH]; intros b Hs Hl; [lia|]. cbn [decode_all].
+  destruct (parse true b) as [v n| |k| |] eqn:E; cbn [snd].
+  - pose proof (parse_consumed_exact _ _ _ _ E) as [Hn _].
+    specialize (IH (skipn n b) (size_ok_skipn _ _ Hs)). rewrite skipn_length in IH.
+    specialize (IH ltac:(lia)).
+    destruct (snd (decode_all true f (skipn n b))); auto. destruct IH. split; [assumption|lia].
+  - split; [exact E|lia].
+  - exact I.
+  - exact (parse_no_panic true b Hs E).
+  - exact (parse_no_oof true b E).
+Qed.
+
+Lemma decode_stream_tail_ok b : size_ok b ->
+  match snd (decode_stream true b) with
+  | TMore rest => parse true rest = Incomplete /\ length rest <= length b
+  | TErr _ => True
+  | _ => False
+  end.
+Proof. intros Hs. apply decode_all_tail_ok; [exact Hs|lia]. Qed.
+
+Section Equiv.
+  Variable utf8_ok : bytes -> bool.
+  Variable St : Type.
+  Variable cmd : Type.
+  Variable decode_cmd : resp -> cmd + bytes.
+  Variable exec : St -> cmd -> St * resp.
+  Variable fast_get : St -> bytes -> St * resp.
+  Variable fast_set : St -> bytes -> bytes -> St * resp.
+  Variable batch_get : St -> list bytes -> St * list resp.
+  Variable batch_set : St -> list (bytes * bytes) -> St * list resp.
+  Variable kind : cmd -> ckind.
+  Variable cmd_get : bytes -> cmd.
+  Variable cmd_set : bytes -> bytes -> cmd.
+  Variable stub_reply : cmd -> resp.
+
+  Hypothesis BOK : backend_ok utf8_ok St cmd decode_cmd exec fast_get fast_set batch_get batch_set kind cmd_get cmd_set.
+
+  Notation HF := (handle_frame St cmd decode_cmd exec kind cmd_get stub_reply).
+  Notation core := (core St cmd).
+  Notation conn := (conn St cmd).
+  Notation DRAIN := (drain utf8_ok St cmd decode_cmd exec fast_get fast_set kind cmd_get stub_reply).
+  Notation BATCH := (batch_phase utf8_ok St cmd batch_get batch_set).
+  Notation ONREAD := (on_read utf8_ok St cmd decode_cmd exec fast_get fast_set batch_get batch_set kind cmd_get stub_reply).
+  Notation REFREAD := (ref_read St cmd decode_cmd exec kind cmd_get stub_reply).
+
+  Definition get_frame (nm key : bytes) : resp := RArr [RBulk nm; RBulk key].
+  Definition set_frame (nm key val : bytes) : resp := RArr [RBulk nm; RBulk key; RBulk val].
+
+  (* executing through the fast path = handing the frame to the command layer *)
+  Lemma fast_get_eq_generic (c : core) nm key :
+    in_tx _ (txs _ _ c) = false -> is_get_name nm -> utf8_ok key = true ->
+    HF c (get_frame nm key) = do_fast_get St cmd fast_get c key.
+  Proof.
+    destruct BOK as (Hg & _ & Hkg & _ & Hfg & _).
+    intros Ht Hn Hu. unfold handle_frame, get_frame. rewrite (Hg nm key Hn Hu).
+    unfold dispatch, do_fast_get. rewrite Ht, Hkg, Hfg. reflexivity.
+  Qed.
+
+  Lemma fast_set_eq_generic (c : core) nm key val :
+    in_tx _ (txs _ _ c) = false -> is_set_name nm -> utf8_ok key = true ->
+    HF c (set_frame nm key val) = do_fast_set St cmd fast_set c key val.
+  Proof.
+    destruct BOK as (_ & Hs & _ & Hks & _ & Hfs & _).
+    intros Ht Hn Hu. unfold handle_frame, set_frame. rewrite (Hs nm key val Hn Hu).
+    unfold dispatch, do_fast_set. rewrite Ht, Hks, Hfs. reflexivity.
+  Qed.
+
+  (* what a handler that only uses the generic decoder does with a buffer *)
+  Definition add_proto (c : core) : core :=
+    mkCore _ _ (st _ _ c) (txs _ _ c) (outp _ _ c ++ [R_PROTO]).
+  Definition dres_of (c : core) (r : list resp * stail) : dres St cmd :=
+    match snd r with
+    | TMore rest => DMore _ _ (fold_left HF (fst r) c) rest
+    | TErr _ => DErr _ _ (add_proto (fold_left HF (fst r) c))
+    | TPanic | TOutOfFuel => DPanic _ _
+    end.
+
+  Lemma drain_eq : forall f (c : core) b, size_ok b -> length b < f ->
+    DRAIN f c b = dres_of c (decode_all true f b).
+  Proof.
+    induction f as [|f IH]; intros c b Hs Hl; [lia|].
+    cbn [drain decode_all].
+    assert (Hstep : forall v n c', parse true b = Done v n -> c' = HF c v ->
+              DRAIN f c' (skipn n b) =
+              dres_of c (let r := decode_all true f (skipn n b) in (v :: fst r, snd r))).
+    { intros v n c' Hp ->. pose proof (parse_consumed_exact _ _ _ _ Hp) as [Hn _].
+      rewrite IH; [|apply size_ok_skipn; exact Hs|rewrite skipn_length; lia].
+      unfold dres_of. cbn [fst snd fold_left]. reflexivity. }
+    destruct (in_tx cmd (txs St cmd c)) eqn:Et.
+    - destruct (parse true b) as [v n| |k| |] eqn:E; try reflexivity.
+      now apply Hstep.
+    - pose proof (try_fast_path_sound utf8_ok b Hs) as Hfp.
+      destruct (try_fast_path utf8_ok b) as [key n|key val n| |].
+      + destruct Hfp as (nm & Hn & Hp & Hu). rewrite Hp.
+        apply Hstep; [exact Hp|]. symmetry. now apply fast_get_eq_generic.
+      + destruct Hfp as (nm & Hn & Hp & Hu). rewrite Hp.
+        apply Hstep; [exact Hp|]. symmetry. now apply fast_set_eq_generic.
+      + rewrite Hfp. reflexivity.
+      + destruct (parse true b) as [v n| |k| |] eqn:E; try reflexivity.
+        now apply Hstep.
+  Qed.
+
+  (* ---------------------------------------------------------------- the collectors *)
+  Lemma seq_gets_fold : forall keys frames (c : core),
+    in_tx _ (txs _ _ c) = false ->
+    Forall2 (fun f k => exists nm, is_get_name nm /\ f = get_frame nm k /\ utf8_ok k = true) frames keys ->
+    fold_left HF frames c =
+    mkCore _ _ (fst (seq_gets St fast_get (st _ _ c) keys)) (txs _ _ c)
+           (outp _ _ c ++ snd (seq_gets St fast_get (st _ _ c) keys)).
+  Proof.
+    induction keys as [|k keys IH]; intros frames c Ht H; inversion H as [|f0 k0 fr0 ks0 H2 H4]; subst.
+    - cbn. rewrite app_nil_r. now destruct c.
+    - destruct H2 as (nm & Hn & -> & Hu). cbn [fold_left seq_gets].
+      rewrite (fast_get_eq_generic c nm k Ht Hn Hu). unfold do_fast_get.
+      destruct (fast_get (st St cmd c) k) as [s1 r] eqn:E1.
+      rewrite IH; [|exact Ht|exact H4]. cbn [st txs outp].
+      destruct (seq_gets St fast_get s1 keys) as [s2 l]. cbn [fst snd]. now rewrite <- app_assoc.
+  Qed.
+
+  Lemma seq_sets_fold : forall pairs frames (c : core),
+    in_tx _ (txs _ _ c) = false ->
+    Forall2 (fun f p => exists nm, is_set_name nm /\ f = set_frame nm (fst p) (snd p) /\ utf8_ok (fst p) = true)
+            frames pairs ->
+    fold_left HF frames c =
+    mkCore _ _ (fst (seq_sets St fast_set (st _ _ c) pairs)) (txs _ _ c)
+           (outp _ _ c ++ snd (seq_sets St fast_set (st _ _ c) pairs)).
+  Proof.
+    induction pairs as [|[k v] pairs IH]; intros frames c Ht H; inversion H as [|f0 k0 fr0 ks0 H2 H4]; subst.
+    - cbn. rewrite app_nil_r. now destruct c.
+    - destruct H2 as (nm & Hn & -> & Hu). cbn [fst snd] in *. cbn [fold_left seq_sets].
+      rewrite (fast_set_eq_generic c nm k v Ht Hn Hu). unfold do_fast_set.
+      destruct (fast_set (st St cmd c) k v) as [s1 r] eqn:E1.
+      rewrite IH; [|exact Ht|exact H4]. cbn [st txs outp].
+      destruct (seq_sets St fast_set s1 pairs) as [s2 l]. cbn [fst snd]. now rewrite <- app_assoc.
+  Qed.
+
+  Lemma collect_gets_frames : forall fuel buf keys used, size_ok buf ->
+    collect_gets utf8_ok fuel buf = (keys, used) ->
+    exists frames,
+      Forall2 (fun f k => exists nm, is_get_name nm /\ f = get_frame nm k /\ utf8_ok k = true) frames keys /\
+      decode_stream true buf = (frames ++ fst (decode_stream true (skipn used buf)),
+                                snd (decode_stream true (skipn used buf))).
+  Proof.
+    induction fuel as [|fuel IH]; intros buf keys used Hs H.
+    - cbn in H. inversion H; subst. exists []. split; [constructor|]. cbn [skipn app].
+      now destruct (decode_stream true buf).
+    - cbn [collect_gets] in H.
+      destruct ((length buf <? HEADER_LEN + 1) || negb (is_get_hdr buf)) eqn:Eg.
+      { inversion H; subst. exists []. split; [constructor|]. cbn [skipn app].
+        now destruct (decode_stream true buf). }
+      apply orb_false_elim in Eg. destruct Eg as [_ Eg]. apply negb_false_iff in Eg.
+      pose proof (recog_get_sound utf8_ok buf Hs Eg) as Hr.
+      destruct (recog_get utf8_ok buf) as [key n| | |];
+        try (inversion H; subst; exists []; split; [constructor|]; cbn [skipn app];
+             now destruct (decode_stream true buf)).
+      destruct Hr as (nm & Hn & Hp & Hu).
+      destruct (collect_gets utf8_ok fuel (skipn n buf)) as [ks u] eqn:Ec. cbn [fst snd] in H.
+      inversion H; subst keys used. clear H.
+      destruct (IH _ _ _ (size_ok_skipn _ _ Hs) Ec) as (frames & HF2 & Hd).
+      exists (get_frame nm key :: frames). split.
+      + constructor; [exists nm; auto|exact HF2].
+      + rewrite (decode_stream_done _ _ _ Hp). rewrite Hd. rewrite skipn_plus. reflexivity.
+  Qed.
+
+  Lemma collect_sets_frames : forall fuel buf pairs used, size_ok buf ->
+    collect_sets utf8_ok fuel buf = (pairs, used) ->
+    exists frames,
+      Forall2 (fun f p => exists nm, is_set_name nm /\ f = set_frame nm (fst p) (snd p) /\ utf8_ok (fst p) = true)
+              frames pairs /\
+      decode_stream true buf = (frames ++ fst (decode_stream true (skipn used buf)),
+                                snd (decode_stream true (skipn used buf))).
+  Proof.
+    induction fuel as [|fuel IH]; intros buf pairs used Hs H.
+    - cbn in H. inversion H; subst. exists []. split; [constructor|]. cbn [skipn app].
+      now destruct (decode_stream true buf).
+    - cbn [collect_sets] in H.
+      destruct ((length buf <? HEADER_LEN + 1) || negb (is_set_hdr buf)) eqn:Eg.
+      { inversion H; subst. exists []. split; [constructor|]. cbn [skipn app].
+        now destruct (decode_stream true buf). }
+      apply orb_false_elim in Eg. destruct Eg as [_ Eg]. apply negb_false_iff in Eg.
+      pose proof (recog_set_sound utf8_ok buf Hs Eg) as Hr.
+      destruct (recog_set utf8_ok buf) as [| key val n | |];
+        try (inversion H; subst; exists []; split; [constructor|]; cbn [skipn app];
+             now destruct (decode_stream true buf)).
+      destruct Hr as (nm & Hn & Hp & Hu).
+      destruct (collect_sets utf8_ok fuel (skipn n buf)) as [ps u] eqn:Ec. cbn [fst snd] in H.
+      inversion H; subst pairs used. clear H.
+      destruct (IH _ _ _ (size_ok_skipn _ _ Hs) Ec) as (frames & HF2 & Hd).
+      exists (set_frame nm key val :: frames). split.
+      + constructor; [exists nm; auto|exact HF2].
+      + rewrite (decode_stream_done _ _ _ Hp). rewrite Hd. rewrite skipn_plus. reflexivity.
+  Qed.
+
+  (* ---------------------------------------------------------------- one read *)
+  Lemma dres_of_app (c : core) frames fs t :
+    dres_of c (frames ++ fs, t) = dres_of (fold_left HF frames c) (fs, t).
+  Proof. unfold dres_of. cbn [fst snd]. now rewrite fold_left_app. Qed.
+
+  Lemma do_batch_get_fold (c : core) keys frames :
+    in_tx _ (txs _ _ c) = false ->
+    Forall2 (fun f k => exists nm, is_get_name nm /\ f = get_frame nm k /\ utf8_ok k = true) frames keys ->
+    do_batch_get St cmd batch_get c keys = fold_left HF frames c.
+  Proof.
+    intros Ht H. rewrite (seq_gets_fold keys frames c Ht H).
+    destruct BOK as (_ & _ & _ & _ & _ & _ & Hb & _).
+    unfold do_batch_get. rewrite Hb. now destruct (seq_gets St fast_get (st St cmd c) keys).
+  Qed.
+
+  Lemma do_batch_set_fold (c : core) pairs frames :
+    in_tx _ (txs _ _ c) = false ->
+    Forall2 (fun f p => exists nm, is_set_name nm /\ f = set_frame nm (fst p) (snd p) /\ utf8_ok (fst p) = true)
+            frames pairs ->
+    do_batch_set St cmd batch_set c pairs = fold_left HF frames c.
+  Proof.
+    intros Ht H. rewrite (seq_sets_fold pairs frames c Ht H).
+    destruct BOK as (_ & _ & _ & _ & _ & _ & _ & Hb).
+    unfold do_batch_set. rewrite Hb. now destruct (seq_sets St fast_set (st St cmd c) pairs).
+  Qed.
+
+  Lemma fold_get_frames_tx : forall keys frames (c : core),
+    in_tx _ (txs _ _ c) = false ->
+    Forall2 (fun f k => exists nm, is_get_name nm /\ f = get_frame nm k /\ utf8_ok k = true) frames keys ->
+    in_tx _ (txs _ _ (fold_left HF frames c)) = false.
+  Proof.
+    intros keys frames c Ht H. rewrite (seq_gets_fold keys frames c Ht H). exact Ht.
+  Qed.
+
+  (* the batching prologue followed by the sequential loop = the generic decoder on the whole buffer *)
+  Lemma process_eq g (c : core) b : size_ok b ->
+    (let '(c1, b1) := BATCH g c b in DRAIN (S (length b1)) c1 b1) = dres_of c (decode_stream true b).
+  Proof.
+    intros Hs.
+    assert (Hplain : forall c' b', size_ok b' -> DRAIN (S (length b')) c' b' = dres_of c' (decode_stream true b')).
+    { intros c' b' Hs'. apply drain_eq; [exact Hs'|lia]. }
+    unfold batch_phase.
+    destruct ((min_pipeline_buffer g <=? N.of_nat (length b))%N && negb (in_tx cmd (txs St cmd c))) eqn:Ec.
+    2:{ now apply Hplain. }
+    apply andb_prop in Ec. destruct Ec as [_ Ht]. apply negb_true_iff in Ht.
+    destruct (collect_gets utf8_ok (S (length b)) b) as [keys used] eqn:Eg.
+    destruct (collect_gets_frames _ _ _ _ Hs Eg) as (frames & HF2 & Hd).
+    (* after the GET batch *)
+    assert (Hmid : forall c1 b1, (c1, b1) =
+                     (if (batch_threshold g <=? N.of_nat (length keys))%N
+                      then (do_batch_get St cmd batch_get c keys, skipn used b) else (c, b)) ->
+                   size_ok b1 /\ in_tx _ (txs _ _ c1) = false /\
+                   dres_of c (decode_stream true b) = dres_of c1 (decode_stream true b1)).
+    { intros c1 b1 H. destruct (batch_threshold g <=? N.of_nat (length keys))%N; inversion H; subst.
+      - split; [apply size_ok_skipn; exact Hs|]. rewrite (do_batch_get_fold c keys frames Ht HF2).
+        split; [now apply (fold_get_frames_tx keys)|].
+        rewrite Hd. apply dres_of_app.
+      - auto. }
+    destruct (if (batch_threshold g <=? N.of_nat (length keys))%N
+              then (do_batch_get St cmd batch_get c keys, skipn used b) else (c, b)) as [c1 b1] eqn:E1.
+    destruct (Hmid c1 b1 eq_refl) as (Hs1 & Ht1 & Heq). rewrite Heq.
+    destruct (min_pipeline_buffer g <=? N.of_nat (length b1))%N; [|now apply Hplain].
+    destruct (collect_sets utf8_ok (S (length b1)) b1) as [pairs used2] eqn:Es.
+    destruct (collect_sets_frames _ _ _ _ Hs1 Es) as (frames2 & HF3 & Hd2).
+    destruct (batch_threshold g <=? N.of_nat (length pairs))%N; [|now apply Hplain].
+    rewrite Hplain by (apply size_ok_skipn; exact Hs1).
+    rewrite (do_batch_set_fold c1 pairs frames2 Ht1 HF3). rewrite Hd2. symmetry. apply dres_of_app.
+  Qed.
+
+  (* a read neither EOF nor over the buffer limit is answered exactly as by the generic-only handler *)
+  Lemma on_read_eq_ref g (k : conn) chunk :
+    chunk <> [] ->
+    (N.of_nat (length (cbuf _ _ k)) + N.of_nat (length chunk) <= max_buffer_size g)%N ->
+    size_ok (cbuf _ _ k ++ chunk) ->
+    ONREAD g k chunk = REFREAD k chunk.
+  Proof.
+    intros Hne Hfit Hs. unfold on_read, ref_read. destruct (cstat St cmd k); try reflexivity.
+    destruct chunk as [|x chunk]; [contradiction|].
+    replace (max_buffer_size g <? N.of_nat (length (cbuf St cmd k)) + N.of_nat (length (x :: chunk)))%N
+      with false by (symmetry; apply N.ltb_ge; exact Hfit).
+    set (b := cbuf St cmd k ++ x :: chunk) in *.
+    pose proof (process_eq g (ccore St cmd k) b Hs) as Hp.
+    destruct (BATCH g (ccore St cmd k) b) as [c1 b1]. rewrite Hp.
+    pose proof (decode_stream_tail_ok b Hs) as Ht.
+    unfold dres_of. destruct (snd (decode_stream true b)); try contradiction; reflexivity.
+  Qed.
+
+  (* ---------------------------------------------------------------- many reads *)
+  Lemma ref_read_buf_len (k : conn) chunk : size_ok (cbuf _ _ k ++ chunk) ->
+    length (cbuf _ _ (REFREAD k chunk)) <= length (cbuf _ _ k ++ chunk).
+  Proof.
+    intros Hs. unfold ref_read. destruct (cstat St cmd k); try (rewrite app_length; lia).
+    pose proof (decode_stream_tail_ok _ Hs) as Ht.
+    destruct (snd (decode_stream true (cbuf St cmd k ++ chunk))); cbn [cbuf]; try contradiction; [lia|cbn; lia].
+  Qed.
+
+  Lemma fold_on_read_eq g : forall reads (k : conn),
+    Forall (fun r => r <> []) reads ->
+    (N.of_nat (length (cbuf _ _ k) + length (concat reads)) <= max_buffer_size g)%N ->
+    size_ok (cbuf _ _ k ++ concat reads) ->
+    fold_left (ONREAD g) reads k = fold_left REFREAD reads k.
+  Proof.
+    induction reads as [|chunk reads IH]; intros k Hne Hfit Hs; [reflexivity|].
+    inversion Hne as [|x l Hc Hne']; subst. cbn [fold_left concat] in *.
+    assert (Hs1 : size_ok (cbuf St cmd k ++ chunk)).
+    { rewrite app_assoc in Hs. eapply size_ok_app_l; exact Hs. }
+    rewrite on_read_eq_ref; [|exact Hc| |exact Hs1].
+    2:{ rewrite app_length in Hfit. lia. }
+    pose proof (ref_read_buf_len k chunk Hs1) as Hl. rewrite app_length in Hl.
+    apply IH; [exact Hne'| |].
+    - rewrite app_length in Hfit. lia.
+    - unfold size_ok in *. rewrite !app_length in *. lia.
+  Qed.
+
+  (* the generic-only handler keeps, read after read, exactly what the generic decoder leaves of the
+     bytes received so far, and has handed it exactly the frames decoded so far *)
+  Definition tracks (c0 : core) (consumed : bytes) (k : conn) : Prop :=
+    cstat _ _ k = Open /\
+    snd (decode_stream true consumed) = TMore (cbuf _ _ k) /\
+    ccore _ _ k = fold_left HF (fst (decode_stream true consumed)) c0.
+
+  Lemma decode_stream_app consumed chunk rest : size_ok (consumed ++ chunk) ->
+    snd (decode_stream true consumed) = TMore rest ->
+    decode_stream true (consumed ++ chunk) =
+    (fst (decode_stream true consumed) ++ fst (decode_stream true (rest ++ chunk)),
+     snd (decode_stream true (rest ++ chunk))).
+  Proof.
+    intros Hs Ht. rewrite <- (feed_decode true consumed chunk Hs). unfold feed. now rewrite Ht.
+  Qed.
+
+  Lemma decode_stream_err_stable consumed x e : size_ok (consumed ++ x) ->
+    snd (decode_stream true consumed) = TErr e ->
+    decode_stream true (consumed ++ x) = decode_stream true consumed.
+  Proof.
+    intros Hs Ht. rewrite <- (feed_decode true consumed x Hs). unfold feed. now rewrite Ht.
+  Qed.
+
+  Lemma ref_read_tracks c0 consumed (k : conn) chunk :
+    tracks c0 consumed k -> size_ok (consumed ++ chunk) ->
+    let r := decode_stream true (consumed ++ chunk) in
+    match snd r with
+    | TMore rest => REFREAD k chunk = mkConn _ _ rest (fold_left HF (fst r) c0) Open
+    | TErr _ => REFREAD k chunk = mkConn _ _ [] (add_proto (fold_left HF (fst r) c0)) Open
+    | _ => False
+    end.
+  Proof.
+    intros (Ho & Ht & Hc) Hs. cbv zeta.
+    rewrite (decode_stream_app consumed chunk _ Hs Ht). cbn [fst snd].
+    pose proof (decode_stream_tail_ok _ Hs) as Hok.
+    rewrite (decode_stream_app consumed chunk _ Hs Ht) in Hok. cbn [snd] in Hok.
+    unfold ref_read. rewrite Ho, Hc. rewrite fold_left_app.
+    destruct (snd (decode_stream true (cbuf St cmd k ++ chunk))); try contradiction; reflexivity.
+  Qed.
+
+  Lemma tracks_init (s : St) : tracks (core_init _ _ s) [] (conn_init _ _ s).
+  Proof. repeat split. Qed.
+
+  Lemma fold_ref_wf c0 : forall reads consumed (k : conn) rest,
+    tracks c0 consumed k -> size_ok (consumed ++ concat reads) ->
+    snd (decode_stream true (consumed ++ concat reads)) = TMore rest ->
+    fold_left REFREAD reads k =
+    mkConn _ _ rest (fold_left HF (fst (decode_stream true (consumed ++ concat reads))) c0) Open.
+  Proof.
+    induction reads as [|chunk reads IH]; intros consumed k rest Htr Hs Hm.
+    - cbn [concat fold_left] in *. rewrite app_nil_r in *. destruct Htr as (Ho & Ht & Hc).
+      rewrite Hm in Ht. inversion Ht. destruct k; cbn in *; subst. reflexivity.
+    - cbn [concat fold_left] in *. rewrite app_assoc in *.
+      assert (Hs1 : size_ok (consumed ++ chunk)) by (eapply size_ok_app_l; exact Hs).
+      pose proof (ref_read_tracks c0 consumed k chunk Htr Hs1) as Hr. cbv zeta in Hr.
+      destruct (snd (decode_stream true (consumed ++ chunk))) as [rest1|e| |] eqn:E1; try contradiction.
+      + rewrite Hr. apply IH; [|exact Hs|exact Hm]. repeat split; cbn; auto.
+      + rewrite (decode_stream_err_stable _ _ _ Hs E1) in Hm. congruence.
+  Qed.
+
+  Definition output_of (k : conn) : list resp := outp _ _ (ccore _ _ k).
+
+  Lemma fold_ref_malformed c0 : forall reads consumed (k : conn) e,
+    tracks c0 consumed k -> size_ok (consumed ++ concat reads) ->
+    snd (decode_stream true (consumed ++ concat reads)) = TErr e ->
+    let fs := fst (decode_stream true (consumed ++ concat reads)) in
+    exists j, j <= length reads /\
+      fold_left REFREAD (firstn j reads) k = mkConn _ _ [] (add_proto (fold_left HF fs c0)) Open /\
+      forall i, i < j -> exists m,
+        output_of (fold_left REFREAD (firstn i reads) k) = outp _ _ (fold_left HF (firstn m fs) c0).
+  Proof.
+    induction reads as [|chunk reads IH]; intros consumed k e Htr Hs Hm; cbv zeta.
+    - cbn [concat] in *. rewrite app_nil_r in *. destruct Htr as (_ & Ht & _). congruence.
+    - cbn [concat] in *. rewrite app_assoc in *.
+      assert (Hs1 : size_ok (consumed ++ chunk)) by (eapply size_ok_app_l; exact Hs).
+      pose proof (ref_read_tracks c0 consumed k chunk Htr Hs1) as Hr. cbv zeta in Hr.
+      assert (Hk : forall fs', fs' = fst (decode_stream true ((consumed ++ chunk) ++ concat reads)) ->
+                   (exists x, fs' = fst (decode_stream true consumed) ++ x) ->
+                   exists m, output_of k = outp _ _ (fold_left HF (firstn m fs') c0)).
+      { intros fs' _ [x ->]. exists (length (fst (decode_stream true consumed))).
+        rewrite firstn_app, Nat.sub_diag, firstn_all. cbn [firstn]. rewrite app_nil_r.
+        destruct Htr as (_ & _ & Hc). unfold output_of. now rewrite Hc. }
+      destruct Htr as (Ho & Ht & Hc).
+      destruct (snd (decode_stream true (consumed ++ chunk))) as [rest1|e1| |] eqn:E1; try contradiction.
+      + assert (Htr1 : tracks c0 (consumed ++ chunk) (REFREAD k chunk)).
+        { rewrite Hr. repeat split; cbn; auto. }
+        destruct (IH _ _ _ Htr1 Hs Hm) as (j & Hj & Hfin & Hpre). cbv zeta in Hfin, Hpre.
+        exists (S j). split; [cbn [length]; lia|]. split; [exact Hfin|].
+        intros [|i] Hi.
+        * apply (Hk _ eq_refl).
+          rewrite (decode_stream_app (consumed ++ chunk) (concat reads) _ Hs E1). cbn [fst].
+          rewrite (decode_stream_app consumed chunk _ Hs1 Ht). cbn [fst].
+          rewrite <- app_assoc. eauto.
+        * apply Hpre. lia.
+      + exists 1. split; [cbn [length]; lia|].
+        rewrite (decode_stream_err_stable _ _ _ Hs E1). split.
+        * cbn [firstn fold_left]. exact Hr.
+        * intros i Hi. assert (i = 0) by lia. subst i.
+          pose proof (Hk _ eq_refl) as Hk'. rewrite (decode_stream_err_stable _ _ _ Hs E1) in Hk'.
+          apply Hk'. rewrite (decode_stream_app consumed chunk _ Hs1 Ht). cbn [fst]. eauto.
+  Qed.
+
+  (* any bytes at all: the task never dies and never sits on a frame the decoder can decide *)
+  Lemma ref_read_alive (k : conn) chunk : size_ok (cbuf _ _ k ++ chunk) ->
+    cstat _ _ k <> Dead -> parse true (cbuf _ _ k) = Incomplete ->
+    cstat _ _ (REFREAD k chunk) <> Dead /\ parse true (cbuf _ _ (REFREAD k chunk)) = Incomplete.
+  Proof.
+    intros Hs Hd Hp. unfold ref_read. destruct (cstat St cmd k) eqn:Ek; try (split; [congruence|exact Hp]).
+    pose proof (decode_stream_tail_ok _ Hs) as Ht.
+    destruct (snd (decode_stream true (cbuf St cmd k ++ chunk))); try contradiction; cbn [cstat cbuf].
+    - split; [discriminate|tauto].
+    - split; [discriminate|reflexivity].
+  Qed.
+
+  Lemma fold_ref_alive : forall reads (k : conn), size_ok (cbuf _ _ k ++ concat reads) ->
+    cstat _ _ k <> Dead -> parse true (cbuf _ _ k) = Incomplete ->
+    cstat _ _ (fold_left REFREAD reads k) <> Dead /\
+    parse true (cbuf _ _ (fold_left REFREAD reads k)) = Incomplete.
+  Proof.
+    induction reads as [|chunk reads IH]; intros k Hs Hd Hp; [auto|].
+    cbn [fold_left concat] in *.
+    assert (Hs1 : size_ok (cbuf St cmd k ++ chunk)).
+    { rewrite app_assoc in Hs. eapply size_ok_app_l; exact Hs. }
+    destruct (ref_read_alive k chunk Hs1 Hd Hp) as [Hd1 Hp1].
+    apply IH; auto.
+    pose proof (ref_read_buf_len k chunk Hs1) as Hl.
+    unfold size_ok in *. rewrite !app_length in *. lia.
+  Qed.
+
+  (* every frame handed to the command layer is answered by exactly one reply *)
+  Lemma handle_frame_one_reply (c : core) v : exists r, outp _ _ (HF c v) = outp _ _ c ++ [r].
+  Proof.
+    unfold handle_frame. destruct (decode_cmd v) as [cm|e]; [|eexists; reflexivity].
+    unfold dispatch. destruct (in_tx cmd (txs St cmd c)).
+    - destruct (kind cm); try (eexists; reflexivity).
+      destruct (tx_err cmd (txs St cmd c)); [eexists; reflexivity|].
+      destruct (watch_unchanged St cmd exec cmd_get (st St cmd c) (watched cmd (txs St cmd c))) as [s1 same].
+      destruct same; [|eexists; reflexivity].
+      destruct (run_queue St cmd exec s1 (queue cmd (txs St cmd c))). eexists; reflexivity.
+    - destruct (kind cm); try (eexists; reflexivity).
+      + destruct (snapshot St cmd exec cmd_get (st St cmd c) keys). eexists; reflexivity.
+      + destruct (exec (st St cmd c) cm). eexists; reflexivity.
+      + destruct (exec (st St cmd c) cm). eexists; reflexivity.
+  Qed.
+
+  Lemma fold_frames_length : forall fs (c : core),
+    length (outp _ _ (fold_left HF fs c)) = length (outp _ _ c) + length fs.
+  Proof.
+    induction fs as [|v fs IH]; intros c; cbn [fold_left length]; [lia|].
+    rewrite IH. destruct (handle_frame_one_reply c v) as [r ->]. rewrite app_length. cbn [length]. lia.
+  Qed.
+
+  Lemma fold_frames_prefix : forall fs (c : core) n,
+    outp _ _ (fold_left HF (firstn n fs) c) = firstn (length (outp _ _ c) + n) (outp _ _ (fold_left HF fs c)).
+  Proof.
+    induction fs as [|v fs IH]; intros c n.
+    - rewrite firstn_nil. cbn [fold_left]. rewrite firstn_all2; [reflexivity|lia].
+    - destruct n as [|n].
+      + cbn [firstn fold_left]. rewrite Nat.add_0_r.
+        assert (Hpre : forall fs' (c' : core), exists x, outp _ _ (fold_left HF fs' c') = outp _ _ c' ++ x).
+        { induction fs' as [|w fs' IH']; intros c'; [exists []; now rewrite app_nil_r|].
+          cbn [fold_left]. destruct (IH' (HF c' w)) as [x ->].
+          destruct (handle_frame_one_reply c' w) as [r ->]. rewrite <- app_assoc. eauto. }
+        destruct (Hpre fs (HF c v)) as [x ->]. destruct (handle_frame_one_reply c v) as [r ->].
+        rewrite <- app_assoc. now rewrite firstn_app, Nat.sub_diag, firstn_all, app_nil_r.
+      + cbn [firstn fold_left]. rewrite IH.
+        destruct (handle_frame_one_reply c v) as [r Hr]. rewrite Hr, app_length. cbn [length].
+        f_equal. lia.
+  Qed.
+
+  (* ---------------------------------------------------------------- the theorems *)
+  Notation RUN := (run utf8_ok St cmd decode_cmd exec fast_get fast_set batch_get batch_set kind cmd_get stub_reply).
+  Notation REFERENCE := (reference St cmd decode_cmd exec kind cmd_get stub_reply).
+
+  Definition reads_ok (g : cfg) (reads : list bytes) : Prop :=
+    Forall (fun r => r <> []) reads /\
+    (N.of_nat (length (concat reads)) <= max_buffer_size g)%N /\
+    size_ok (concat reads).
+
+  Lemma concat_firstn_len {A} (l : list (list A)) i : length (concat (firstn i l)) <= length (concat l).
+  Proof.
+    revert i. induction l as [|x l IH]; intros [|i]; cbn [firstn concat length]; try lia.
+    rewrite !app_length. specialize (IH i). lia.
+  Qed.
+
+  Lemma reads_ok_firstn g reads i : reads_ok g reads -> reads_ok g (firstn i reads).
+  Proof.
+    intros (H1 & H2 & H3). pose proof (concat_firstn_len reads i) as Hl. repeat split.
+    - clear H2 H3 Hl. revert i. induction H1 as [|x l Hx Hl IH]; intros [|i]; cbn [firstn]; constructor; auto.
+    - lia.
+    - unfold size_ok in *. lia.
+  Qed.
+
+  (* with fast path and batching = without, read by read, on ANY bytes *)
+  Theorem handler_eq_generic_only g reads (s : St) : reads_ok g reads ->
+    RUN g s reads = fold_left REFREAD reads (conn_init _ _ s).
+  Proof.
+    intros (H1 & H2 & H3). unfold run. apply fold_on_read_eq; cbn [cbuf conn_init app length]; auto.
+  Qed.
+
+  Theorem handler_eq_reference g reads (s : St) : reads_ok g reads ->
+    wf_stream (concat reads) ->
+    let k := RUN g s reads in
+    output _ _ k = REFERENCE s (concat reads) /\
+    cstat _ _ k = Open /\
+    snd (decode_stream true (concat reads)) = TMore (cbuf _ _ k).
+  Proof.
+    intros Hok [rest Hr]. cbv zeta. rewrite (handler_eq_generic_only g reads s Hok).
+    destruct Hok as (H1 & H2 & H3).
+    rewrite (fold_ref_wf (core_init _ _ s) reads [] (conn_init _ _ s) rest (tracks_init s)); cbn [app]; auto.
+  Qed.
+
+  Corollary one_reply_per_command g reads (s : St) : reads_ok g reads ->
+    wf_stream (concat reads) ->
+    let k := RUN g s reads in
+    let frames := fst (decode_stream true (concat reads)) in
+    length (output _ _ k) = length frames /\
+    forall n, firstn n (output _ _ k) = outp _ _ (fold_left HF (firstn n frames) (core_init _ _ s)).
+  Proof.
+    intros Hok Hwf. cbv zeta. destruct (handler_eq_reference g reads s Hok Hwf) as (Ho & _ & _).
+    rewrite Ho. unfold reference, reference_core. split.
+    - rewrite fold_frames_length. reflexivity.
+    - intros n. rewrite fold_frames_prefix. reflexivity.
+  Qed.
+
+  Theorem malformed_gets_error g reads (s : St) e : reads_ok g reads ->
+    snd (decode_stream true (concat reads)) = TErr e ->
+    let frames := fst (decode_stream true (concat reads)) in
+    exists j, j <= length reads /\
+      (let k := RUN g s (firstn j reads) in
+       output _ _ k = outp _ _ (fold_left HF frames (core_init _ _ s)) ++ [R_PROTO] /\
+       cbuf _ _ k = [] /\ cstat _ _ k = Open) /\
+      forall i, i < j ->
+        cstat _ _ (RUN g s (firstn i reads)) <> Dead /\
+        exists m, output _ _ (RUN g s (firstn i reads)) = firstn m (outp _ _ (fold_left HF frames (core_init _ _ s))).
+  Proof.
+    intros Hok He. cbv zeta.
+    destruct Hok as (H1 & H2 & H3).
+    destruct (fold_ref_malformed (core_init _ _ s) reads [] (conn_init _ _ s) e (tracks_init s) H3 He)
+      as (j & Hj & Hfin & Hpre). cbv zeta in Hfin, Hpre. cbn [app] in *.
+    exists j. split; [exact Hj|]. split.
+    - rewrite (handler_eq_generic_only g _ s (reads_ok_firstn g reads j (conj H1 (conj H2 H3)))).
+      rewrite Hfin. cbn. auto.
+    - intros i Hi.
+      rewrite (handler_eq_generic_only g _ s (reads_ok_firstn g reads i (conj H1 (conj H2 H3)))).
+      split.
+      + apply fold_ref_alive; cbn [cbuf conn_init app]; try discriminate; try reflexivity.
+        pose proof (concat_firstn_len reads i). unfold size_ok in *. lia.
+      + destruct (Hpre i Hi) as [m Hm]. unfold output_of in Hm. unfold output. rewrite Hm.
+        exists m. rewrite fold_frames_prefix. reflexivity.
+  Qed.
+
+  Theorem never_dies_never_stalls g reads (s : St) : reads_ok g reads ->
+    let k := RUN g s reads in
+    cstat _ _ k <> Dead /\ parse true (cbuf _ _ k) = Incomplete.
+  Proof.
+    intros Hok. cbv zeta. rewrite (handler_eq_generic_only g reads s Hok).
+    destruct Hok as (H1 & H2 & H3).
+    apply fold_ref_alive; cbn [cbuf conn_init app]; try discriminate; auto.
+  Qed.
+
+  Theorem batching_config_irrelevant g1 g2 reads (s : St) : reads_ok g1 reads -> reads_ok g2 reads ->
+    RUN g1 s reads = RUN g2 s reads.
+  Proof.
+    intros H1 H2. now rewrite (handler_eq_generic_only g1 reads s H1), (handler_eq_generic_only g2 reads s H2).
+  Qed.
+
+  (* whenever a recogniser accepts, the generic decoder accepts the same bytes as the same frame of
+     the same length, and executing through the fast path is handing that frame to the command layer *)
+  Theorem fast_path_eq_generic b (c : core) : size_ok b -> in_tx _ (txs _ _ c) = false ->
+    match try_fast_path utf8_ok b with
+    | FGet key n => exists nm, is_get_name nm /\ parse true b = Done (get_frame nm key) n /\
+                               HF c (get_frame nm key) = do_fast_get St cmd fast_get c key
+    | FSet key val n => exists nm, is_set_name nm /\ parse true b = Done (set_frame nm key val) n /\
+                               HF c (set_frame nm key val) = do_fast_set St cmd fast_set c key val
+    | FNeed => parse true b = Incomplete
+    | FNot => True
+    end.
+  Proof.
+    intros Hs Ht. pose proof (try_fast_path_sound utf8_ok b Hs) as H.
+    destruct (try_fast_path utf8_ok b); auto.
+    - destruct H as (nm & Hn & Hp & Hu). exists nm. repeat split; auto. now apply fast_get_eq_generic.
+    - destruct H as (nm & Hn & Hp & Hu). exists nm. repeat split; auto. now apply fast_set_eq_generic.
+  Qed.
+End Equiv.
+
+(* ------------------------------------------------------------------ replies on the wire *)
+Lemma wire_decodes : forall rs x, Forall (fun r => wf_resp MAX_DEPTH r = true) rs ->
+  size_ok (wire rs ++ x) ->
+  decode_stream true (wire rs ++ x) = (rs ++ fst (decode_stream true x), snd (decode_stream true x)).
+Proof.
+  induction rs as [|r rs IH]; intros x Hwf Hs.
+  - unfold wire. cbn [flat_map app]. now destruct (decode_stream true x).
+  - inversion Hwf as [|r' rs' Hr Hrs]; subst. unfold wire in *. cbn [flat_map] in *. rewrite <- app_assoc in *.
+    pose proof (encode_decode_app true r (flat_map encode rs ++ x) Hr Hs) as Hp.
+    rewrite (decode_stream_done _ _ _ Hp). rewrite skipn_app_exact by reflexivity.
+    rewrite IH; [reflexivity|exact Hrs|].
+    unfold size_ok in *. rewrite !app_length in *. lia.
+Qed.
+
+Lemma sanitize_line_ok s : line_ok (sanitize s) = true.
+Proof.
+  unfold line_ok, sanitize. apply forallb_forall. intros c Hc. apply in_map_iff in Hc.
+  destruct Hc as (x & <- & _).
+  destruct (x =? 13)%N eqn:E1; [reflexivity|]. destruct (x =? 10)%N eqn:E2; [reflexivity|].
+  cbn [orb]. now rewrite E1, E2.
+Qed.
+
+Section WireWf.
+  Variable St : Type.
+  Variable cmd : Type.
+  Variable decode_cmd : resp -> cmd + bytes.
+  Variable exec : St -> cmd -> St * resp.
+  Variable kind : cmd -> ckind.
+  Variable cmd_get : bytes -> cmd.
+  Variable stub_reply : cmd -> resp.
+  (* what the command layer answers is encodable: one line per status / error, bounded nesting *)
+  Hypothesis exec_wf : forall s cm, wf_resp 31 (snd (exec s cm)) = true.
+  Hypothesis stub_wf : forall cm, wf_resp 31 (stub_reply cm) = true.
+
+  Notation HF := (handle_frame St cmd decode_cmd exec kind cmd_get stub_reply).
+
+  Lemma wf_resp_mono : forall v d, wf_resp d v = true -> wf_resp (S d) v = true.
+  Proof.
+    induction v as [s|s|z| |s| |l IH] using resp_ind2; intros d H; try exact H.
+    - destruct d; [discriminate|reflexivity].
+    - destruct d as [|d]; [discriminate|]. cbn [wf_resp] in *. rewrite forallb_forall in *.
+      intros x Hx. rewrite Forall_forall in IH. apply IH; auto.
+  Qed.
+
+  Lemma run_queue_wf : forall q s, forallb (wf_resp 31) (snd (run_queue St cmd exec s q)) = true.
+  Proof.
+    induction q as [|c q IH]; intros s; [reflexivity|]. cbn [run_queue].
+    pose proof (exec_wf s c) as Hc. destruct (exec s c) as [s1 r]. cbn [snd] in Hc.
+    specialize (IH s1). destruct (run_queue St cmd exec s1 q) as [s2 l]. cbn [snd forallb] in *.
+    now rewrite Hc, IH.
+  Qed.
+
+  Lemma handle_frame_wf (c : core St cmd) v :
+    Forall (fun r => wf_resp MAX_DEPTH r = true) (outp _ _ c) ->
+    Forall (fun r => wf_resp MAX_DEPTH r = true) (outp _ _ (HF c v)).
+  Proof.
+    intros Hc.
+    assert (Hadd : forall r, wf_resp MAX_DEPTH r = true ->
+                   Forall (fun r => wf_resp MAX_DEPTH r = true) (outp _ _ c ++ [r])).
+    { intros r Hr. apply Forall_app. split; [exact Hc|]. constructor; [exact Hr|constructor]. }
+    unfold handle_frame. destruct (decode_cmd v) as [cm|e].
+    2:{ cbn [outp]. apply Hadd. unfold err_into. cbn [wf_resp]. apply sanitize_line_ok. }
+    unfold dispatch. destruct (in_tx cmd (txs St cmd c)).
+    - destruct (kind cm); cbn [outp]; try (apply Hadd; reflexivity).
+      + destruct (tx_err cmd (txs St cmd c)); cbn [outp]; [apply Hadd; reflexivity|].
+        destruct (watch_unchanged St cmd exec cmd_get (st St cmd c) (watched cmd (txs St cmd c))) as [s1 same].
+        destruct same; cbn [outp]; [|apply Hadd; reflexivity].
+        pose proof (run_queue_wf (queue cmd (txs St cmd c)) s1) as Hq.
+        destruct (run_queue St cmd exec s1 (queue cmd (txs St cmd c))) as [s2 rs]. cbn [outp snd] in *.
+        apply Hadd. exact Hq.
+      + apply Hadd. unfold R_UNKNOWN_IN_MULTI. cbn [wf_resp]. apply sanitize_line_ok.
+    - destruct (kind cm); cbn [outp]; try (apply Hadd; reflexivity).
+      + destruct (snapshot St cmd exec cmd_get (st St cmd c) keys). cbn [outp]. apply Hadd. reflexivity.
+      + apply Hadd. apply wf_resp_mono. apply stub_wf.
+      + apply Hadd. apply wf_resp_mono. apply stub_wf.
+      + pose proof (exec_wf (st St cmd c) cm) as He. destruct (exec (st St cmd c) cm). cbn [outp snd] in *.
+        apply Hadd. now apply wf_resp_mono.
+      + pose proof (exec_wf (st St cmd c) cm) as He. destruct (exec (st St cmd c) cm). cbn [outp snd] in *.
+        apply Hadd. now apply wf_resp_mono.
+  Qed.
+
+  Lemma fold_frames_wf : forall fs (c : core St cmd),
+    Forall (fun r => wf_resp MAX_DEPTH r = true) (outp _ _ c) ->
+    Forall (fun r => wf_resp MAX_DEPTH r = true) (outp _ _ (fold_left HF fs c)).
+  Proof.
+    induction fs as [|v fs IH]; intros c Hc; [exact Hc|]. cbn [fold_left]. apply IH. now apply handle_frame_wf.
+  Qed.
+
+  (* what the reference writes decodes back, reply by reply, into exactly the replies it wrote *)
+  Theorem reference_wire_decodes (s : St) stream :
+    let rs := reference St cmd decode_cmd exec kind cmd_get stub_reply s stream in
+    size_ok (wire rs) -> decode_stream true (wire rs) = (rs, TMore []).
+  Proof.
+    cbv zeta. intros Hs. set (rs := reference St cmd decode_cmd exec kind cmd_get stub_reply s stream) in *.
+    rewrite <- (app_nil_r (wire rs)). rewrite wire_decodes; [cbn; now rewrite app_nil_r| |now rewrite app_nil_r].
+    unfold rs, reference, reference_core. apply fold_frames_wf. constructor.
+  Qed.
+End WireWf.
+
+(* ------------------------------------------------------------------ the mini backend is an instance *)
+From RV Require Import Model.MiniExec.
+
+Lemma mbatch_get_seq : forall ks s, mbatch_get s ks = seq_gets _ mfast_get s ks.
+Proof.
+  induction ks as [|k ks IH]; intros s; [reflexivity|]. cbn [mbatch_get seq_gets].
+  destruct (mfast_get s k) as [s1 r]. now rewrite IH.
+Qed.
+Lemma mbatch_set_seq : forall ps s, mbatch_set s ps = seq_sets _ mfast_set s ps.
+Proof.
+  induction ps as [|[k v] ps IH]; intros s; [reflexivity|]. cbn [mbatch_set seq_sets].
+  destruct (mfast_set s k v) as [s1 r]. now rewrite IH.
+Qed.
+
+Lemma mini_backend_ok :
+  backend_ok mutf8_ok (list (bytes * mval)) mcmd mdecode mexec mfast_get mfast_set mbatch_get mbatch_set
+             mkind CGet CSet.
+Proof.
+  refine (conj _ (conj _ (conj _ (conj _ (conj _ (conj _ (conj _ _))))))).
+  - intros nm k [-> | ->] _; reflexivity.
+  - intros nm k v [-> | ->] _; reflexivity.
+  - reflexivity.
+  - reflexivity.
+  - reflexivity.
+  - reflexivity.
+  - intros s ks. apply mbatch_get_seq.
+  - intros s ps. apply mbatch_set_seq.
+Qed.
+
+Lemma nonvacuous_c04 :
+  let stream := unhex "2a330d0a24330d0a5345540d0a24310d0a6b0d0a24310d0a760d0a2a320d0a24330d0a4745540d0a24310d0a6b0d0a2a310d0a24340d0a50494e470d0a2a320d0a24330d0a6765740d0a24310d0a6b0d0a" in
+  let reads := [firstn 25 stream; firstn 40 (skipn 25 stream); skipn 65 stream] in
+  let g := mk_cfg 1 1 1048576 in
+  reads_ok g reads /\ concat reads = stream /\ wf_stream stream /\
+  output _ _ (mrun g reads) = [RSimple (str "OK"); RBulk (str "v"); RSimple (str "PONG"); RBulk (str "v")] /\
+  mreference stream = output _ _ (mrun g reads) /\
+  (let bad := stream ++ unhex "2a320d0a24330d0a4745540d0a2431783b0d0a" in
+   exists e, snd (decode_stream true bad) = TErr e /\
+             output _ _ (mrun g [firstn 30 bad; skipn 30 bad]) = mreference stream ++ [R_PROTO]).
+Proof.
+  cbv zeta. split; [|split; [|split; [|split; [|split]]]].
+  - unfold reads_ok. split; [|split].
+    + repeat constructor; vm_compute; discriminate.
+    + vm_compute. discriminate.
+    + unfold size_ok. vm_compute. reflexivity.
+  - vm_compute. reflexivity.
+  - eexists. vm_compute. reflexivity.
+  - vm_compute. reflexivity.
+  - vm_compute. reflexivity.
+  - eexists. split; vm_compute; reflexivity.
+Qed.
